@@ -355,3 +355,58 @@ func runWD(c *Ctx, s *Sink) {
 		}
 	}
 }
+
+func init() {
+	register(&Rule{
+		ID: "WD-5", Props: []string{"C04", "C06", "C18"}, Min: 2,
+		Doc: `the sibling of WD-1 for the writers that have their own writing goroutine (WriteJSON, WriteCSV): in the goroutine that ends the iterator the function returns (a call of WaitAndClose on
+it), that call comes after the chunk channel is closed (close(ch)) and after the writing goroutine has been waited for (a Wait on the WaitGroup it signals): ended first, a consumer that
+drains the iterator finds the destination empty and not closed (0 bytes for JSON and CSV, where FASTA is complete) — the repair 3239e12 reordered the FASTA and FASTQ writers only.`,
+		Run: func(c *Ctx, s *Sink) {
+			c.EachFunc([]string{"pkg/obiformats"}, func(p *packages.Package, fd *ast.FuncDecl) {
+				if rel(p.PkgPath) != "pkg/obiformats" || !strings.HasPrefix(fd.Name.Name, "Write") {
+					return
+				}
+				info := p.TypesInfo
+				ast.Inspect(fd.Body, func(nd ast.Node) bool {
+					g, ok := nd.(*ast.GoStmt)
+					if !ok {
+						return true
+					}
+					lit, ok := g.Call.Fun.(*ast.FuncLit)
+					if !ok {
+						return true
+					}
+					var wac, cl, wt token.Pos
+					ast.Inspect(lit.Body, func(m ast.Node) bool {
+						call, ok := m.(*ast.CallExpr)
+						if !ok {
+							return true
+						}
+						if id, ok := call.Fun.(*ast.Ident); ok && id.Name == "close" && !cl.IsValid() {
+							cl = call.Pos()
+						}
+						fn := fullName(callee(info, call))
+						if strings.HasSuffix(fn, "/pkg/obiiter.(IBioSequence).WaitAndClose") && !wac.IsValid() {
+							wac = call.Pos()
+						}
+						if fn == "sync.(WaitGroup).Wait" && !wt.IsValid() {
+							wt = call.Pos()
+						}
+						return true
+					})
+					if !wac.IsValid() || !cl.IsValid() || !wt.IsValid() {
+						return true
+					}
+					key := funcName(p, fd) + ":iterator-ended-after-the-file-is-written"
+					if cl < wac && wt < wac {
+						s.Pass(nil, key, wac, "the iterator is ended after the chunk channel is closed and the writing goroutine has finished")
+					} else {
+						s.Fail(nil, key, wac, "the returned iterator is ended before the chunks are all written and the destination closed: a consumer that drains it finds 0 bytes in the destination (JSON, CSV) where the FASTA writer's is complete and closed")
+					}
+					return true
+				})
+			})
+		},
+	})
+}
